@@ -370,7 +370,7 @@ class C14(Prop):
         "combine_sum_conserves", "rebin_nan_default_marks_unoccupied", "rebin_nan_default_conserves_total",
         "combine_sum_conserves_optional", "rebin_then_combine_conserves", "hist_rebin_combine_conserves")]
     PARTIAL = {}
-    RULE = ("case kinds: coll (rows from/to/cycles or range/mean; derived quantities; scale/shift by scalar or Series), "
+    RULE = ("case kinds: coll (rows from/to/cycles or range/mean; derived quantities; scale/shift by scalar, numpy scalar, 0-d array, one value per cycle as ndarray / list, or Series; source collective and operand unchanged afterwards, the same call twice on the same object gives the same result), "
             "hist (range_histogram / histogram / recorder histogram with edges, class count, [ex, ey] / [nx, ny], IntervalIndex/IntervalArray "
             "(right- or left-closed, with gaps/overlaps: must be rejected), one class, zero-width class, values exactly on edges or one ulp "
             "beside them, extra index levels in any order, unnamed level, axis = any level or None, recording in chunks), lh (LoadHistogram "
@@ -474,12 +474,15 @@ class C14(Prop):
             idx = gen_idx(rng, n)
             if idx:
                 case["idx"] = idx
-            opk = rng.choice(["scalar", "scalar", "series_level", "series_new"]) if levels else rng.choice(["scalar", "scalar", "series_new"])
-            if idx:
-                opk = "scalar"     # Series operands on repeated labels are the broadcaster's business (C13), pandas refuses them
+            arraylike = ["array", "array", "list", "zerod", "npscalar"]      # non-pandas operands: the Broadcaster hands back the object itself
+            opk = rng.choice(["scalar", "scalar", "series_level", "series_new"] + arraylike) if levels else rng.choice(["scalar", "scalar", "series_new"] + arraylike)
+            if idx and opk.startswith("series"):
+                opk = rng.choice(["scalar"] + arraylike)     # Series operands on repeated labels are the broadcaster's business (C13), pandas refuses them
             case["op"] = rng.choice(["scale", "shift"])
-            if opk == "scalar":
-                case["operand"] = {"t": "scalar", "v": rng.choice([dy(rng, -4, 4, 4), 0.0, 1.0, -1.0, 2.5])}
+            if opk in ("scalar", "zerod", "npscalar"):
+                case["operand"] = {"t": opk, "v": rng.choice([dy(rng, -4, 4, 4), 0.0, 1.0, -1.0, 2.5])}
+            elif opk in ("array", "list"):
+                case["operand"] = {"t": opk, "v": [rng.choice([dy(rng, -4, 4, 4), 2.0, -1.0, 0.5]) for _ in range(n)]}   # one value per cycle
             elif opk == "series_level":
                 lv = rng.choice(levels)
                 vals = sorted({k[levels.index(lv)] for k in keys}, key=str)
@@ -819,9 +822,8 @@ class C14(Prop):
                 lines += [f"c14 rm {f2h(r[0])} {f2h(r[1])}" for r in rows]
                 rows = [[r[1] - r[0] / 2.0, r[1] + r[0] / 2.0, r[2]] for r in rows]
             lines += [f"c14 derive {f2h(r[0])} {f2h(r[1])}" for r in rows]
-            for r, f in self._expanded_operands(case, rows):
-                lines.append(f"c14 {case['op']} {f2h(f)} {f2h(r[0])} {f2h(r[1])}")
-            return lines
+            once = [f"c14 {case['op']} {f2h(f)} {f2h(r[0])} {f2h(r[1])}" for r, f in self._expanded_operands(case, rows)]
+            return lines + once + once      # the same question is put twice to the same collective object: the same answer
         if k == "hist":
             lines = []
             b = case["bins"]
@@ -983,8 +985,10 @@ class C14(Prop):
     def _expanded_operands(self, case, rows):
         """(row, factor) pairs in the order the real result has them (row-major: row, then the operand's own level)."""
         op = case["operand"]
-        if op["t"] == "scalar":
+        if op["t"] in ("scalar", "zerod", "npscalar"):
             return [(r, op["v"]) for r in rows]
+        if op["t"] in ("array", "list"):
+            return list(zip(rows, op["v"]))
         if op["level"] == "other":
             return [(r, v) for r in rows for v in op["v"]]
         lv = case["levels"].index(op["level"])
@@ -1038,9 +1042,10 @@ class C14(Prop):
                     self.stats[key] += 1
             if case.get("cycles"):
                 self.stats["with_cycles"] += 1
-            res = self._apply_operand(case, lc).to_pandas()
             self._count("operand", case["operand"]["t"] + ":" + str(case["operand"].get("level", "")))
-            lines += [hx([a, b]) for a, b in zip(res["from"], res["to"])]
+            for _ in range(2):              # twice on the SAME accessor object
+                res = self._apply_operand(case, lc).to_pandas()
+                lines += [hx([a, b]) for a, b in zip(res["from"], res["to"])]
             return lines
         if k == "hist":
             return self._impl_hist(case)
@@ -1180,6 +1185,14 @@ class C14(Prop):
         op = case["operand"]
         if op["t"] == "scalar":
             return op["v"]
+        if op["t"] == "npscalar":
+            return np.float64(op["v"])
+        if op["t"] == "zerod":
+            return np.array(float(op["v"]))
+        if op["t"] == "array":
+            return np.asarray(op["v"], dtype=float)
+        if op["t"] == "list":
+            return [float(v) for v in op["v"]]
         return pd.Series(op["v"], index=pd.Index(op["index"], name=op["level"]), dtype=float)
 
     def _apply_operand(self, case, lc):
@@ -1357,7 +1370,8 @@ class C14(Prop):
             if list(back.lower.to_numpy(float)) != list(lo) or list(back.upper.to_numpy(float)) != list(up):
                 return ("from/to -> range/mean -> from/to changes upper/lower", "roundtrip")
         # scale / shift
-        res = self._apply_operand(case, lc)
+        arg = self._operand_arg(case)
+        res = lc.scale(arg) if case["op"] == "scale" else lc.shift(arg)
         pairs = self._expanded_operands(case, list(zip(amp, mean, up, lo, cyc)))
         a2, m2, u2, l2, c2 = (res.amplitude.to_numpy(float), res.meanstress.to_numpy(float), res.upper.to_numpy(float),
                               res.lower.to_numpy(float), res.cycles.to_numpy(float))
@@ -1382,9 +1396,30 @@ class C14(Prop):
             in_place = case["operand"]["t"] == "scalar" and list(again[0]) == list(a2) and list(again[1]) == list(m2)
             d = (f"{case['op']}({case['operand'].get('v')}) changed the collective it was called on"
                  + (" (the caller's DataFrame now holds the scaled / shifted loads)" if changed else " (its amplitudes / means are now the scaled / shifted ones)"))
+            if case["operand"]["t"] != "scalar":
+                d = (f"{case['op']} with the {case['operand']['t']} operand {case['operand'].get('v')} changed the collective it was called on"
+                     + (": the caller's DataFrame now holds the transformed loads" if changed else ": its amplitudes / means are now the transformed ones"))
             cls = "collective-scale-shift-in-place" if in_place else "input-modified"
             if not self.known(cls, d):
                 return (d, cls)
+        # the operand is not modified either
+        arg0 = self._operand_arg(case)
+        if isinstance(arg, pd.Series):
+            same_arg = arg.equals(arg0) and arg.index.equals(arg0.index)
+        else:
+            same_arg = type(arg) is type(arg0) and np.array_equal(np.asarray(arg, dtype=float), np.asarray(arg0, dtype=float))
+        if not same_arg:
+            return (f"{case['op']} modified its operand: {arg0!r} became {arg!r}", "input-modified")
+        # the same operation a second time on the same accessor object, and on a fresh accessor of the same frame: the same result
+        for what, acc in (("the same collective object", lc), ("the same frame", df.load_collective)):
+            r2 = acc.scale(arg) if case["op"] == "scale" else acc.shift(arg)
+            second = (r2.amplitude.to_numpy(float), r2.meanstress.to_numpy(float), r2.upper.to_numpy(float), r2.lower.to_numpy(float),
+                      r2.cycles.to_numpy(float))
+            if any(list(x) != list(y) for x, y in zip(second, (a2, m2, u2, l2, c2))):
+                i = next(i for i in range(len(a2)) if any(x[i] != y[i] for x, y in zip(second, (a2, m2, u2, l2, c2))))
+                return (f"{case['op']} with the {case['operand']['t']} operand {case['operand'].get('v')} asked a second time of {what} gives another "
+                        f"answer: row {i} (amplitude, mean, upper, lower, cycles) first {tuple(x[i] for x in (a2, m2, u2, l2, c2))}, "
+                        f"then {tuple(x[i] for x in second)}", "input-modified")
         return None
 
     def _oracle_hist(self, case):
